@@ -105,6 +105,8 @@ def corr_parse(patterns, flagsets, bytes_modes=(0, 1), nproc=16, skip=None):
             outs = m.run(['wcparse %d %d %s' % (fv, isb, enc(p)) for p in pats], nproc=nproc)
             nd = 0
             for p, o in zip(pats, outs):
+                if o == 'unsupported':
+                    continue       # Windows drive/UNC prefix: not modelled
                 exp = impl_parse(p, fv, isb)
                 evals += 1
                 if o != exp:
